@@ -102,7 +102,7 @@ func genCase(t *rapid.T) Case {
 		cp := gen.CollidingPair().Draw(t, "collide")
 		pool[0], pool[1] = cp[0], cp[1]
 	}
-	c.Nested = nk > 0 && rapid.IntRange(0, 3).Draw(t, "nested") == 0
+	c.Nested = nk > 0 && rapid.IntRange(0, 3).Draw(t, "nested") == 0 && !pbt.Open("C09", "nested-key")
 	if rapid.IntRange(0, 3).Draw(t, "backpressure") == 0 {
 		c.OutBuf = rapid.SampledFrom([]int{1, 2, 4}).Draw(t, "outbuf")
 		c.SinkUs = rapid.SampledFrom([]int{50, 200, 1000}).Draw(t, "sinkus")
@@ -357,6 +357,9 @@ func runCase(c Case) (res pbt.Result) {
 
 func features(c Case) []string {
 	var f []string
+	if c.Nested && len(c.Keys) > 0 {
+		f = append(f, "nested-key")
+	}
 	// two distinct tuples whose "|"-join (cast.ToString) coincides
 	seen := map[string]string{}
 	for _, r := range c.Rows {
